@@ -37,12 +37,13 @@ def cases(tier, seed):
     for scheme in ("L/Y/YX", "LXY"):
         for fmt in (EXTS if tier == "thorough" else ("png", "fits")):
             out.append(dict(t="template", scheme=scheme, fmt=fmt, seed=R.randrange(1 << 30), nrand=2000 if tier == "quick" else 20000))
-    wf = ["study_png", "study_jpg", "study_fits", "study_fitswcs", "allsky", "multi_tan", "wwtl", "tile_fits_tan", "tile_fits_wcs", "tile_fits_toast", "pipeline"]
+    wf = ["study_png", "study_jpg", "study_fits", "study_fitswcs", "allsky", "multi_tan", "wwtl", "tile_fits_tan", "tile_fits_wcs", "tile_fits_toast", "pipeline", "api_study"]
     reps = 2 if tier == "quick" else 50
     for w in wf:
         for i in range(reps if w not in ("pipeline", "wwtl") else (1 if tier == "quick" else 3)):
             out.append(dict(t="workflow", wf=w, par=R.choice([1, 2]), seed=R.randrange(1 << 30)))
-    seqs = [["fresh", "repeat"], ["fresh", "override", "repeat"], ["fresh", "repeat", "repeat"], ["fresh", "repeat", "override"]]
+    seqs = [["fresh", "repeat"], ["fresh", "override", "repeat"], ["fresh", "repeat", "repeat"], ["fresh", "repeat", "override"],
+            ["interrupted", "override_smaller", "repeat"], ["interrupted", "override_smaller"]]
     for i in range(6 if tier == "quick" else 200):
         out.append(dict(t="history", seq=seqs[i % len(seqs)], mode=["tan", "tan", "toast"][i % 3], seed=R.randrange(1 << 30), par=R.choice([1, 2])))
     return out
@@ -250,6 +251,23 @@ def run_workflow(spec, workdir):
                 p = [p2, p] if spec["seed"] % 4 == 1 else [p, p2]
             toasty.tile_fits(p, out_dir=out, parallel=par, override=True, tiling_method=TilingMethod.TOAST)
             casc = False
+        elif wf == "api_study":
+            # the Python API with every tile format (incl. jpg tiles, which no command-line workflow produces) and both schemes
+            from toasty.builder import Builder
+            from toasty.image import Image
+            from toasty.merge import averaging_merger, cascade_images
+            from toasty.pyramid import PyramidIO
+
+            fmt = ["jpg", "png", "npy", "jpg"][spec["seed"] % 4]
+            scheme = ["L/Y/YX", "LXY"][(spec["seed"] // 4) % 2]
+            arr = rng.integers(0, 255, (h, w, 3), dtype=np.uint8)
+            pio = PyramidIO(out, scheme=scheme, default_format=fmt)
+            b = Builder(pio)
+            b.tile_base_as_study(Image.from_array(arr))
+            b.write_index_rel_wtml()
+            if b.imgset.tile_levels >= 1:
+                cascade_images(pio, b.imgset.tile_levels, averaging_merger, parallel=par)
+            casc = False
         elif wf == "wwtl":
             from wwt_data_formats.filecabinet import FileCabinetWriter
 
@@ -379,8 +397,43 @@ def case_history(spec, workdir):
     probs = []
     instr_mp.install("natural", spec["seed"])
     calls = 0
+    if out is None and spec["seq"][0] == "interrupted":
+        out = os.path.join(workdir, "out")
+
+    class Interrupt(BaseException):
+        pass
+
     for step in spec["seq"]:
-        od, b = toasty.tile_fits(paths if len(paths) > 1 or R.random() < 0.5 else paths[0], out_dir=out, parallel=spec["par"], override=(step == "override"), **kw)
+        use = paths
+        kw2 = dict(kw)
+        if step == "interrupted":
+            # the first run dies between the base layer and the end of the cascade (before index_rel.wtml is written)
+            from toasty import builder as _b
+
+            orig = _b.Builder.cascade
+
+            def dying(self, **k):
+                raise Interrupt()
+
+            _b.Builder.cascade = dying
+            try:
+                toasty.tile_fits(paths, out_dir=out, parallel=spec["par"], override=False, **kw)
+                probs.append(("interrupt-swallowed", "the injected interruption of the cascade did not stop tile_fits"))
+            except Interrupt:
+                pass
+            finally:
+                _b.Builder.cascade = orig
+            calls += 1
+            continue
+        if step == "override_smaller":
+            # the retry tiles a smaller (shallower) data set into the same directory with override=True
+            small = os.path.join(ind, "small.fits")
+            if spec["mode"] == "tan":
+                fitsgen.write_piece(small, rng.normal(size=(100, 120)).astype(np.float32), (0, 0, 120, 100), (60, 50), crval=(10.0, 5.0), bottoms_up=True)
+            else:
+                fitsgen.write_piece(small, rng.normal(size=(20, 30)).astype(np.float32), (0, 0, 30, 20), (15, 10), scale=2.0, crval=(10.0, 5.0), bottoms_up=True)
+            use = [small]
+        od, b = toasty.tile_fits(use if len(use) > 1 or R.random() < 0.5 else use[0], out_dir=out, parallel=spec["par"], override=(step in ("override", "override_smaller")), **kw2)
         calls += 1
         if out is None:
             out = od
@@ -394,6 +447,11 @@ def case_history(spec, workdir):
         probs += [(k + ":" + ("reuse" if step == "repeat" else step), t) for k, t in p]
         if not os.path.exists(os.path.join(out, "0", "0", "0_0.fits")):
             probs.append(("root-tile-missing", "call %d (%s): 0/0/0_0.fits absent" % (calls, step)))
+        # the recorded depth is the deepest populated layer actually on disk (nothing stale from an earlier run)
+        iset, _pl = wtml_info(os.path.join(out, "index_rel.wtml"))
+        levels_on_disk = [int(dn) for dn in os.listdir(out) if dn.isdigit() and any(f.endswith(".fits") for _r, _d, fs in os.walk(os.path.join(out, dn)) for f in fs)]
+        if levels_on_disk and max(levels_on_disk) != int(iset.get("TileLevels")):
+            probs.append(("tilelevels-vs-disk:" + step, "call %d (%s): TileLevels=%s but the deepest populated layer on disk is %d" % (calls, step, iset.get("TileLevels"), max(levels_on_disk))))
     r = dict(counters={"histories": 1, "tile_fits_calls": calls, "history_" + spec["mode"]: 1}, nontrivial=calls >= 2, sample=dict(spec=spec))
     if probs:
         keys = sorted({k for k, _ in probs})
@@ -412,6 +470,7 @@ def run_case(spec, workdir):
 def finish(agg, tier):
     c = agg["counters"]
     wf = ["study_png", "study_jpg", "study_fits", "study_fitswcs", "allsky", "multi_tan", "wwtl", "tile_fits_tan", "tile_fits_wcs", "tile_fits_toast", "pipeline"]
+    wf.append("api_study")
     miss = [w for w in wf if c.get("wf_" + w, 0) < 1]
     if miss or c.get("template_positions", 0) < 10000 or c.get("histories", 0) < 3 or c.get("tiles_matched", 0) < 50:
         return dict(inconclusive="not reached: %s %s" % (miss, {k: c.get(k) for k in ("template_positions", "histories", "tiles_matched")}))
